@@ -20,3 +20,13 @@ package meta
 //@   property C14
 //@   callee (*bbolt.DB).Update, (*bbolt.DB).Batch
 //@   requires [write_transaction_only_in_writable_mode] metaWritable()
+
+// ---- C43: a component's recorded mode changes only when the switch succeeded.
+//@ callrule c43_meta_collaborators in (*DB).SetMode
+//@   property C43
+//@   callee (*metabase.DB).Close, (*metabase.DB).Open, (*metabase.DB).Init, (mode.Mode).*
+//@   pureeffect
+//@ func (*DB).SetMode
+//@   property C43
+//@   ensures [recorded_mode_is_the_new_one_on_success] err == nil ==> db.mode == m
+//@   ensures [recorded_mode_unchanged_on_failure] err != nil ==> db.mode == old(db.mode)
